@@ -71,7 +71,8 @@ func poolCases(seed uint64, tier, prop string) []core.Case {
 
 type extChain struct {
 	lastBatchNonce map[string]uint64 // token -> last executed batch nonce
-	callDone       map[uint64]bool
+	callDone       map[uint64]bool // executed successfully on the external chain
+	callResulted   map[uint64]bool // the external chain emitted a result event (success or failure)
 }
 
 // ---- reference model of one outgoing transfer ----------------------------------------
@@ -126,6 +127,7 @@ type poolRun struct {
 	batchExecutedExt    map[string]map[uint64]bool
 	batchTimeout        map[string]map[uint64]uint64
 	releasedByExecution bool
+	parkedResults       map[string][]parkedResult
 	forceToken          *fix.WToken
 	forceFee            int64
 	execToken           string
@@ -193,7 +195,7 @@ func (r *poolRun) setup() bool {
 		}
 		r.model[cn] = map[uint64]*xfer{}
 		r.calls[cn] = map[uint64]*callRec{}
-		r.ext[cn] = &extChain{lastBatchNonce: map[string]uint64{}, callDone: map[uint64]bool{}}
+		r.ext[cn] = &extChain{lastBatchNonce: map[string]uint64{}, callDone: map[uint64]bool{}, callResulted: map[uint64]bool{}}
 	}
 	if _, err := c.Next(); err != nil {
 		r.res.Inconclusive = err.Error()
